@@ -756,7 +756,7 @@ func (idx *indexer) indexBulkSince(txID uint64, restarting bool) error {
 				}
 
 				// the previous entry as of txID must be deleted from the target index
-				_, prevTxID, _, err := sourceIndexer.index.GetBetween(sourceKey, 1, currTxID-1)
+				_, prevTxID, _, err := sourceIndexer.GetBetween(sourceKey, 1, currTxID-1)
 				if err == nil {
 					prevEntry, prevTxHdr, err := idx.store.ReadTxEntry(prevTxID, e.key(), false)
 					if err != nil {
